@@ -2,7 +2,9 @@
 ``_zope_interface_coptimizations.c`` -> ``coq/Gen/LookupC.v``.
 
 Functions: _subcache (summarised), _getcache, _lookup, _lookup1, _adapter_hook, _lookupAll, _subscriptions
-(+ a textual check that LB_queryAdapter forwards to _adapter_hook with its first two arguments swapped).
++ the twelve method wrappers LB_x / VB_x (x = lookup, lookup1, adapter_hook, queryAdapter, lookupAll,
+subscriptions): which core function each calls, with which permutation of its arguments, and whether
+``_verify(self)`` runs first (every VB_x must; a VB_x may also delegate to its LB_x after verifying).
 Tokeniser and parser of the C subset are those of harness/translate/cskeleton.py (C11's ownership
 extractor); this module runs a different symbolic execution over the same syntax trees: typed symbolic
 values, every feasible path becomes a branch of a Gallina ``if`` / ``match`` over the vocabulary of
@@ -529,17 +531,73 @@ def _check_subcache(text, macros):
     return len(rets)
 
 
-def _check_queryadapter(text):
-    m = re.search(r"^LB_queryAdapter\(LB\* self, PyObject\* args, PyObject\* kwds\)\s*\{(.*?)^\}", text, re.M | re.S)
-    if not m:
-        raise Abort("LB_queryAdapter not found")
-    b = re.sub(r"\s+", " ", m.group(1))
-    ok = ('kwlist[] = { "object", "provided", "name", "default", NULL }' in b
-          and "*name = NULL, *default_ = NULL" in b
-          and re.search(r"kwlist, &object, &provided, &name, &default_\)\) return NULL; "
-                        r"return _adapter_hook\(self, provided, object, name, default_\); $", b))
-    if not ok:
-        raise Abort("LB_queryAdapter does not forward (object, provided, name, default) to _adapter_hook(provided, object, ...)")
+CORES = {"_lookup": ("CoreLookup", 4), "_lookup1": ("CoreLookup1", 4), "_adapter_hook": ("CoreAdapterHook", 4),
+         "_lookupAll": ("CoreLookupAll", 2), "_subscriptions": ("CoreSubscriptions", 2)}
+WRAPPED = ["lookup", "lookup1", "adapter_hook", "queryAdapter", "lookupAll", "subscriptions"]
+KWLISTS = {"lookup": ["required", "provided", "name", "default"], "lookup1": ["required", "provided", "name", "default"],
+           "adapter_hook": ["provided", "object", "name", "default"], "queryAdapter": ["object", "provided", "name", "default"],
+           "lookupAll": ["required", "provided"], "subscriptions": ["required", "provided"]}
+_WRAP_A = re.compile(
+    r'^static char\* kwlist\[\] = \{ (?P<kw>(?:"\w+", )+)NULL \}; PyObject (?P<decl>[^;]+); '
+    r'if \(!PyArg_ParseTupleAndKeywords\( ?args, kwds, "(?P<fmt>[^"]+)", kwlist, (?P<targets>[^)]*)\)\) return NULL; '
+    r'(?P<verify>if \(_verify\(self\) < 0\) return NULL; )?'
+    r'return (?P<callee>\w+)\((?:\(LB\*\))?self, (?P<cargs>[^)]*)\); \}$')
+_WRAP_B = re.compile(r'^(?P<verify>if \(_verify\(self\) < 0\) return NULL; )?'
+                     r'return (?P<callee>LB_\w+)\(\(LB\*\)self, args, kwds\); \}$')
+
+
+def _wrapper(text, cls, name, seen=()):
+    """-> (verifies first?, core function, argument permutation) of the method wrapper <cls>_<name>; Abort on any
+    other shape than: [parse (args, kwds) into locals] [if (_verify(self) < 0) return NULL;] return callee(...)"""
+    fname = "%s_%s" % (cls, name)
+    m = re.search(r"^%s\(%s\* self, PyObject\* args, PyObject\* kwds\)\s*\{(.*?^\})" % (fname, cls), text, re.M | re.S)
+    if not m or fname in seen:
+        raise Abort("%s: not found / unexpected signature" % fname)
+    b = re.sub(r"\s+", " ", m.group(1)).strip()
+    mb = _WRAP_B.match(b)
+    if mb:
+        if cls != "VB" or mb.group("callee") != "LB_" + name:
+            raise Abort("%s delegates to %s" % (fname, mb.group("callee")))
+        _v, core, perm = _wrapper(text, "LB", name, seen + (fname,))
+        return bool(mb.group("verify")), core, perm
+    ma = _WRAP_A.match(b)
+    if not ma:
+        raise Abort("%s: unexpected body %r" % (fname, b[:200]))
+    if ma.group("verify") and cls != "VB":
+        raise Abort("%s calls _verify" % fname)
+    kws = re.findall(r'"(\w+)"', ma.group("kw"))
+    targets = [t.strip() for t in ma.group("targets").split(",")]
+    if any(not t.startswith("&") for t in targets) or len(targets) != len(kws) or len(set(targets)) != len(targets):
+        raise Abort("%s: unexpected parse targets %r for %r" % (fname, targets, kws))
+    targets = [t[1:] for t in targets]
+    fmt = ma.group("fmt").split(":")[0]
+    nreq = len(fmt.split("|")[0])
+    if fmt.replace("|", "") != "O" * len(kws) or fmt.count("|") > 1:
+        raise Abort("%s: unexpected format %r" % (fname, fmt))
+    decl = [d.strip() for d in ma.group("decl").split(",")]
+    want = ["*%s%s" % (t, "" if i < nreq else " = NULL") for i, t in enumerate(targets)]
+    if sorted(decl) != sorted(want):
+        raise Abort("%s: locals %r, expected %r (optional arguments must start as NULL)" % (fname, decl, want))
+    callee = ma.group("callee")
+    if callee not in CORES:
+        raise Abort("%s calls %s" % (fname, callee))
+    core, arity = CORES[callee]
+    cargs = [a.strip() for a in ma.group("cargs").split(",")]
+    if len(cargs) != arity or sorted(cargs) != sorted(targets):
+        raise Abort("%s passes %r to %s" % (fname, cargs, callee))
+    if kws != KWLISTS[name]:
+        raise Abort("%s: keyword names %r, expected %r" % (fname, kws, KWLISTS[name]))
+    # positions refer to the keyword list (the Python-level signature)
+    return bool(ma.group("verify")), core, [targets.index(a) for a in cargs]
+
+
+def _wrappers(text):
+    out = []
+    for cls in ("LB", "VB"):
+        for name in WRAPPED:
+            r = _wrapper(text, cls, name)
+            out.append((cls, name, r[0], r[1], r[2]))
+    return out
 
 
 def extract(repo=None):
@@ -548,7 +606,7 @@ def extract(repo=None):
     text = strip_comments(raw)
     macros = find_macros(text)
     npaths = _check_subcache(text, macros)
-    _check_queryadapter(text)
+    wrappers = _wrappers(text)
     out = ["(* GENERATED by harness/translate/lookup_c.py from %s -- do not edit." % path,
            "   Regenerated on every run; Proofs/LookupGen.v re-proves it equal to Model/CLookup.v.",
            "   _subcache: %d paths, each returns the sub-dictionary of its first argument under its second" % npaths,
@@ -580,6 +638,10 @@ def extract(repo=None):
         out.append("  Definition %s %s%s : %s :=" % (gname, "(c : caches) " if ret != "handle" else "", " ".join(sig), RET_TYPE[ret]))
         out.append(term + ".")
         out.append("")
+    for cls, name, ver, core, perm in wrappers:
+        out.append("  Definition gen_%s_%s : c_wrapper := mkWrap %s %s [%s]." % (
+            cls, name, "true" if ver else "false", core, "; ".join(map(str, perm))))
+    out.append("")
     out += ["  (* LB_queryAdapter: parses (object, provided, name, default) and calls _adapter_hook *)",
             "  Definition gen_c_queryAdapter (c : caches) (v_object : obj) (v_provided : spec) (v_name : option name_arg) (v_default_ : darg) :=",
             "    gen_c_adapter_hook c v_provided v_object v_name v_default_.", "",
